@@ -35,7 +35,8 @@ func c15Fields() (times, wdays, days, months, years, locs []c15Spec) {
 		{times: "[{start_time: '00:00', end_time: '24:00'}]", rTimes: [][2]int{{0, 1440}}},
 		{times: "[{start_time: '09:00', end_time: '17:00'}]", rTimes: [][2]int{{540, 1020}}},
 		{times: "[{start_time: '23:59', end_time: '24:00'}]", rTimes: [][2]int{{1439, 1440}}},
-		{times: "[{start_time: '00:00', end_time: '02:30'}, {start_time: '12:00', end_time: '12:01'}]", rTimes: [][2]int{{0, 150}, {720, 721}}},
+		// several ranges, listed in no particular order (nothing sorts them, nothing requires an order)
+		{times: "[{start_time: '12:00', end_time: '12:01'}, {start_time: '00:00', end_time: '02:30'}, {start_time: '17:00', end_time: '24:00'}]", rTimes: [][2]int{{720, 721}, {0, 150}, {1020, 1440}}},
 	}
 	wdays = []c15Spec{
 		{},
